@@ -346,11 +346,16 @@ def _rows_match_loop_form(b):
     inner = re.sub(r"(\w+)\.data\.get\((\w+)\)\.map\(\|\(_,\s*col\)\|\s*col\.index1d\((\w+)\)\)", r"cell(\1, \2, \3)", inner)
     inner = re.sub(r"\b(\w+)\s*==\s*(\w+)\b", r"opt_eq(\1, \2)", inner)
     inner = re.sub(r"\b(\w+)\s*!=\s*(\w+)\b", r"!opt_eq(\1, \2)", inner)
-    if re.search(r"\b(data|iter|map|continue|break)\b", inner):
+    if re.search(r"\b(data|iter|map|break)\b", inner):
         raise AnchorLost("rows_match: the loop body is outside the transcription rules")
     EQ = "cellv(*lhs, %s@[%%s].0, lhs_row as int) == cellv(*rhs, %s@[%%s].1, rhs_row as int)" % (xs, xs)
     inv = ("    invariant forall|j: int| 0 <= j < k_ ==> " + EQ % ("j", "j") + ",") if tail == "true" else ("    invariant forall|j: int| 0 <= j < k_ ==> !(" + EQ % ("j", "j") + "),")
-    loop = "  for k_ in 0..%s.len()\n%s\n  {\n    let (%s, %s) = (&%s[k_].0, &%s[k_].1);\n%s\n  }\n  %s" % (xs, inv, a_, b_, xs, xs, inner, tail)
+    if re.search(r"\bcontinue\b", inner):      # this Verus has no `continue` in `for`: an index `while`, the index advanced at the top of the body
+        inv_w = inv.replace("0 <= j < k_ ==>", "0 <= j < k_ - cur_ ==>").replace("    invariant ", "    invariant k_ <= %s@.len(), cur_ == 0, " % xs)
+        loop = ("  let mut k_: usize = 0;\n  let ghost mut cur_: int = 0;\n  while k_ < %s.len()\n%s\n    decreases %s@.len() - k_,\n  {\n    let (%s, %s) = (&%s[k_].0, &%s[k_].1);\n"
+                "    k_ += 1; proof { cur_ = 1; }\n%s\n    proof { cur_ = 0; }\n  }\n  %s" % (xs, inv_w, xs, a_, b_, xs, xs, re.sub(r"\bcontinue\s*;", "{ proof { cur_ = 0; } continue; }", inner), tail))
+    else:
+        loop = "  for k_ in 0..%s.len()\n%s\n  {\n    let (%s, %s) = (&%s[k_].0, &%s[k_].1);\n%s\n  }\n  %s" % (xs, inv, a_, b_, xs, xs, inner, tail)
     post = "res == (forall|k: int| 0 <= k < %s@.len() ==> %s)" % (xs, EQ % ("k", "k"))          # the property's clause, whatever the loop computes
     return ("fn rows_match(lhs: &MechTable, lhs_row: usize, rhs: &MechTable, rhs_row: usize, %s: &Vec<(u64, u64)>) -> (res: bool)\n"
             "  ensures %s,\n{\n" % (xs, post) + pre + "\n" + loop + "\n}\n")
